@@ -7,8 +7,9 @@ DOMAIN = {
     "a": [None, -3, -1, 0, 1, 2, 7],
     "b": [None, -1, 0, 1, 2, 7],
     "c": [None, -3, 0, 2, 7],
-    "s": [None, "", "a", "ab", "b%", "a_c", "o'x", "x\\y", " pad ", "abcabc", "bc"],
-    "u": [None, "", "a", "b", "c", "ab", "%", "_", "o'x"],
+    "s": [None, "", "a", "ab", "b%", "a_c", "o'x", "x\\y", " pad ", "abcabc", "bc", "a%41b", "a+b",
+          "e\u0301"],
+    "u": [None, "", "a", "b", "c", "ab", "%", "_", "o'x", "a\\nb", "&amp;"],
     "d": [None, dt.datetime(2020, 1, 1, 0, 0, 0), dt.datetime(2019, 12, 31, 23, 59, 59),
           dt.datetime(2021, 6, 15, 12, 30, 45), dt.datetime(2000, 2, 29, 6, 7, 8)],
     "flag": [None, True, False],
